@@ -97,11 +97,15 @@ func hist(a map[string]string) {
 		line  string
 	}
 	items := make([]*item, n)
+	nfixed := 0
 	for i := 0; i < n; i++ {
-		fx := fixed[i%len(fixed)]
+		var fx *c09lab.Fixed
 		if gen := common.ArgInt(a, "gen", 0); gen > 0 && i%gen == gen-1 {
 			// every gen-th history runs on a configuration of the shared federation generator
 			fx = c09lab.Generated(seed, i)
+		} else {
+			fx = fixed[nfixed%len(fixed)]
+			nfixed++
 		}
 		if a["cfg"] != "" {
 			fx = c09lab.FixedByName(a["cfg"])
